@@ -1006,6 +1006,34 @@ func dictPlan(tier string) []Unit {
 				units = append(units, Unit{Opts: o, Mon: mon, Tag: "long-" + sig, History: fixRamps(h)})
 			}
 		}
+		// nested dictionary columns of the main record (resource.schema_url, scope.name/version,
+		// schema_url, status message, ...) that do not exist in the first batch and then take
+		// more distinct values than the limit: as first column of its struct and after it
+		{
+			plain := historyAlphabet(sig, false)[0]
+			cont := func(n, uses int) Letter { return Letter{Sig: sig, Ramp: &Ramp{Kind: "containers", N: n, Uses: uses}} }
+			for _, thr := range []float64{0, 0.3, 1e18} {
+				o := Options{Dict: "u8", Reset: thr, Zstd: -1, Span: -1, Attrs16: -1, Attrs32: -1}
+				units = append(units, Unit{Opts: o, Mon: mon, Tag: "containers-" + sig, History: fixRamps([]Letter{plain, cont(300, 1), cont(300, 1), cont(300, 1)})},
+					Unit{Opts: o, Mon: mon, Tag: "containers-" + sig, History: fixRamps([]Letter{plain, cont(100, 4), cont(100, 4), cont(100, 4), cont(300, 1)})},
+					Unit{Opts: o, Mon: mon, Tag: "containers-" + sig, History: fixRamps([]Letter{cont(300, 1), plain, cont(300, 2)})})
+			}
+			if thorough {
+				units = append(units, Unit{Opts: DefaultOptions(), Mon: mon, Tag: "containers-default-" + sig, History: fixRamps([]Letter{plain, cont(30000, 1), cont(30000, 1), cont(30000, 1), cont(30000, 1)})})
+			}
+			// a batch refused half-way through Append (id width), then columns outgrowing the limit
+			for _, big := range []string{"items", "resources"} {
+				for _, thr := range []float64{0, 0.3, 1e18} {
+					o := Options{Dict: "u8", Reset: thr, Zstd: -1, Span: -1, Attrs16: -1, Attrs32: -1}
+					for _, l := range rampLetters(sig, 300) {
+						if l.Ramp.Uses > 2 {
+							continue
+						}
+						units = append(units, Unit{Opts: o, Mon: mon, Tag: "after-refusal-" + sig, History: fixRamps([]Letter{historyAlphabet(sig, false)[2], {Sig: sig, Big: &Big{Kind: big, N: 65537}}, l, l, l})})
+					}
+				}
+			}
+		}
 		// limits above 16 bits: the index widens to 32 bits in mid-stream
 		for _, d := range []string{"u32", "u64"} {
 			o := DefaultOptions()
